@@ -91,10 +91,17 @@ def run(ctx, out):
         {"sched": [{"tasks": [_t(1, 1, 2, True), _t(2, 1, -1)], "cap": 0}, {"tasks": [_t(3, 2, 1)], "cap": 0}], "workerOf": [1, 1], "W": 1},
         {"sched": [{"tasks": [_t(1, 1, 3), _t(2, 1, 3)], "cap": 0}], "workerOf": [1, 1], "W": 1},
         {"sched": [{"tasks": [_t(1, 1, 2), _t(2, 2, 2)], "cap": 0}, {"tasks": [_t(3, 1, 1)], "cap": 0}], "workerOf": [1, 1, 2], "W": 2},
+        # a finite task next to an eternal one WITHOUT completed-by: this race only ever ends through the injected failure
+        {"sched": [{"tasks": [_t(1, 1, 5), _t(2, 1, -1)], "cap": 0}], "workerOf": [1, 1], "W": 1},
     ]
     for i, scn in enumerate(shared):
         for k, variant in enumerate(["api_error", "unsuccessful", "api_error", "unsuccessful"]):
             jobs.append({"scn": scn, "script": [], "seed": ctx.seed + 9100 + 10 * i + k, "test_mode": True, "qmax": 100, "fault": "req", "req_variant": variant, "fault_delay": 8 + 5 * k, "lenient": [1]})
+    # directed: a client fails fatally while another client of the SAME executor goes on (eternal / longer task): the failure must
+    # still be reported within a wake-up interval, not when the siblings are done
+    for i, scn in enumerate(shared):
+        for k in range(4):
+            jobs.append({"scn": scn, "script": [], "seed": ctx.seed + 9300 + 10 * i + k, "test_mode": True, "qmax": 100, "fault": "req", "req_variant": ["conn_error", "runner"][k % 2], "fault_delay": 6 + 4 * k})
     # tasks that declare ignore-response-error-level: non-fatal next to strict ones: in every parallel element with >= 2 tasks the
     # FIRST task is lenient in half of the races (a non-fatal request error is then injected only into the strict tasks, where
     # on-error=abort must still fail the race)
